@@ -36,7 +36,7 @@ pub fn hist(max_len: usize, wmodes: &'static [u8]) -> BoxedStrategy<HistCase> {
         proptest::option::weighted(0.15, (vec((name(), attr()), 0..5), vec((name(), name(), w()), 0..6))),
         vec(op(), 0..=max_len),
     )
-        .prop_map(|(spec, wmode, ctor, ops)| HistCase { universe: 6, spec, wmode, ctor, ops })
+        .prop_map(|(spec, wmode, ctor, ops)| HistCase { universe: 6, spec, wmode, ctor, ops, huge: 0 })
         .boxed()
 }
 
@@ -67,7 +67,7 @@ pub fn enumerate_histories(wmode: u8) -> Vec<HistCase> {
     let mut out = vec![];
     for spec in 0..96u8 {
         for s in &seqs {
-            out.push(HistCase { universe: 6, spec, wmode, ctor: None, ops: s.clone() });
+            out.push(HistCase { universe: 6, spec, wmode, ctor: None, ops: s.clone(), huge: 0 });
         }
     }
     out
@@ -83,6 +83,6 @@ pub fn hist_big(wmodes: &'static [u8]) -> BoxedStrategy<HistCase> {
     let batch = vec((any::<u8>(), any::<u8>(), w()), 0..6).prop_map(Op::AddEdges);
     let op = prop_oneof![10 => hub_edge, 4 => any_edge, 2 => node, 1 => batch];
     (34u8..=64, 0u8..96, proptest::sample::select(wmodes), vec(op, 40..=160))
-        .prop_map(|(universe, spec, wmode, ops)| HistCase { universe, spec, wmode, ctor: None, ops })
+        .prop_map(|(universe, spec, wmode, ops)| HistCase { universe, spec, wmode, ctor: None, ops, huge: 0 })
         .boxed()
 }
